@@ -148,10 +148,10 @@ def primitives_tie(ctx):
     P = list(range(-8, 9)) + [-50, 50]
     for s in STRINGS:
         for p in P:
-            reqs.append({'op': 'substr', 'dialect': 'SQLite', 's': s, 'p': p, 'l': None})
+            reqs.append({'op': 'substr', 'dialect': 'SQLite', 's': s, 'pos': p, 'len': None})
             exp.append({'ok': con.execute('select substr(?, ?)', (s, p)).fetchone()[0]}); meta.append(('sqlite-substr2', s, p))
             for l in list(range(-4, 9)) + [50]:
-                reqs.append({'op': 'substr', 'dialect': 'SQLite', 's': s, 'p': p, 'l': l})
+                reqs.append({'op': 'substr', 'dialect': 'SQLite', 's': s, 'pos': p, 'len': l})
                 exp.append({'ok': con.execute('select substr(?, ?, ?)', (s, p, l)).fetchone()[0]}); meta.append(('sqlite-substr3', s, p, l))
     con.close()
     udf = sqlite_provider.py_string_slice
@@ -265,6 +265,12 @@ def guard_class(dialect, s, a_cls, b_cls, i, j):
         if dialect == 'MySQL' and len(s.encode('utf-8')) != n: return 'MySQL:LENGTH()-counts-bytes(non-ASCII string)'
     return None
 
+def guard_class_index(dialect, name, src):
+    """a bound expression that itself calls len(e.name): MySQL's LENGTH() counts bytes"""
+    if dialect == 'MySQL' and 'len(e.name)' in src and len(name.encode('utf-8')) != len(name):
+        return 'MySQL:LENGTH()-counts-bytes(non-ASCII string)'
+    return None
+
 ROWS = [
     dict(id=1, name='', k=0, m=-1), dict(id=2, name='a', k=1, m=-2), dict(id=3, name='Ann', k=-1, m=2), dict(id=4, name='abcdef', k=2, m=-3),
     dict(id=5, name='abcdef', k=-4, m=5), dict(id=6, name='héllo', k=3, m=-2), dict(id=7, name='xy', k=-7, m=9), dict(id=8, name='abcdefghij', k=4, m=-1),
@@ -375,9 +381,11 @@ def run_provider(ctx, provider, suspects, failures):
                 else:
                     i, j = a[2](r), None
                     if i is None: continue
+                if dialect == 'Oracle' and r['name'] == '' and 'len(e.name)' in (a[0] + (b[0] if b else '')):
+                    continue    # Oracle: '' IS NULL, so the bound expression itself is NULL (outside the quantifier)
                 cols = {'e.name': (None if (dialect == 'Oracle' and r['name'] == '') else r['name']), 'e.k': r['k'], 'e.m': r['m']}
                 eval_reqs.append({'op': 'eval', 'dialect': dialect, 'ast': real_sql, 'cols': cols, 'params': {'sv': 'Python'}})
-                eval_meta.append((kind, recv, a, b, src, s, i, j))
+                eval_meta.append((kind, recv, a, b, src, s, i, j, r['name']))
     # ---- hand model vs the real translator / builder
     if ctx.driver.ok and model_reqs:
         outs = ctx.driver('C25', model_reqs)
@@ -402,7 +410,7 @@ def run_provider(ctx, provider, suspects, failures):
     # ---- oracle for the other dialects: the real AST under the Lean dialect evaluator
     if ctx.driver.ok and eval_reqs:
         outs = ctx.driver('C25', eval_reqs)
-        for (kind, recv, a, b, src, s, i, j), o in zip(eval_meta, outs):
+        for (kind, recv, a, b, src, s, i, j, r_name), o in zip(eval_meta, outs):
             if 'driver_error' in o:
                 ctx.divergence('the emitted AST is outside the node kinds of the evaluator', [provider, src], model=o['driver_error'], impl=None); continue
             if kind == 'slice':
@@ -411,7 +419,7 @@ def run_provider(ctx, provider, suspects, failures):
                 ctx.case([provider, 'slice', a[1][0], b[1][0], s, i, j], kind='oracle:%s:slice' % provider)
                 got = sval_out(o)
                 if got != exp:
-                    cls = guard_class(dialect, s, a[1], b[1], i, j)
+                    cls = guard_class(dialect, s, a[1], b[1], i, j) or guard_class_index(dialect, r_name, a[0] + b[0])
                     sentinel = a[1][0] in 'ocp' and (i or 0) == 0 and b[1][0] in 'cp' and j == -1
                     if sentinel:
                         ctx.count('sentinel-reproduced-under-%s-semantics' % provider)
@@ -427,7 +435,10 @@ def run_provider(ctx, provider, suspects, failures):
                 exp = ('ok', None if (dialect == 'Oracle' and py == '') else py)
                 ctx.case([provider, 'index', a[1][0], s, i], kind='oracle:%s:index' % provider + (':in-range' if r is not None else ':out-of-range'))
                 got = sval_out(o)
-                if got != exp:
+                cls = guard_class_index(dialect, r_name, a[0])
+                if got != exp and cls is not None:
+                    suspects.add(ctx, cls, dict(query=src, name=r_name, index=i, sql_result=got[1] if got[0] == 'ok' else 'ERROR ' + str(got[1]), python=py))
+                elif got != exp:
                     if r is None:
                         ctx.divergence("out-of-range index: the evaluator returned something else than ''", [provider, src, s, i], model=list(got), impl='')
                     else:
